@@ -155,8 +155,7 @@ def run(pid, tier):
             one('MCGFormat_q.cfg')
         else:
             with concurrent.futures.ThreadPoolExecutor(max_workers=2) as ex:
-                list(ex.map(one, ['MCGFormat_5a.cfg', 'MCGFormat_5b.cfg']))
-            one('MCGFormat_6.cfg')
+                list(ex.map(one, ['MCGFormat_5p1.cfg', 'MCGFormat_5p2.cfg', 'MCGFormat_5p3.cfg', 'MCGFormat_5p456.cfg', 'MCGFormat_6p4.cfg', 'MCGFormat_6p5.cfg']))
     th = threading.Thread(target=mpart)
     th.start()
     nrand, estride = (1200, 13) if tier == 'quick' else (45000, 1)
@@ -179,7 +178,7 @@ def run(pid, tier):
     rep.cov['exhaustive'] = True
     rep.cov['explanation'] = ('exhaustive for the specification lemmas on all expansions of <= %s digits, exponents -8..8, precisions 1..6; the library is checked on '
                               'the structured value set (all powers of ten, d.ddd5 boundaries, zero digits at every position, subnormals, specials) and sampled '
-                              'on seeded random bit patterns' % ('4 (3 for precisions 4..6)' if tier == 'quick' else '5 (and of 6 digits for exponents -5, 4 and precisions 4, 5)'))
+                              'on seeded random bit patterns' % ('4 (3 for precisions 4..6)' if tier == 'quick' else '5 (4 for precisions 5, 6), and of 6 digits for exponents -5, 4 and precisions 4, 5'))
     shutil.rmtree(w, ignore_errors=True)
     return rep.finish()
 
